@@ -10,6 +10,7 @@ runs on Float (Model/Mdcev.lean).
 import Model.Mdcev
 import Proofs.MdcevKkt
 import Proofs.MdcevAlgo
+import Proofs.MdcevOrder
 
 open Mdcev
 
@@ -176,6 +177,34 @@ theorem labels_irrelevant {α} [NumOps α] (π : Int → Int) (hπ : Function.In
     forecast v scale budget tolD tolB (alts.map (relabelAlt π))
       = (forecast v scale budget tolD tolB alts).map (relabelFc π) :=
   forecast_relabel π hπ v scale budget tolD tolB alts
+
+/-- **order irrelevance** (over ℝ): the forecast does not depend on the order in which the
+alternatives are listed — the order of `index_to_key`, i.e. the iteration order of the Python set
+of labels, which is where labels could still matter — provided the marginal utilities at zero
+of the ordinary goods are pairwise distinct (true with probability one for continuous draws)
+and there is at most one outside good: same error, or same chosen set, same multiplier and the
+same consumptions up to that order. -/
+theorem order_irrelevant (v : Variant) (scale : Option ℝ) (budget tolD tolB : ℝ) (l₁ l₂ : List (Alt ℝ))
+    (hp : l₂.Perm l₁) (hone : (l₁.filter isOutside).length ≤ 1)
+    (hkeys : ((l₁.filter fun a => !isOutside a).map fun a => dU v scale a 0).Nodup) :
+    (∀ e, forecast v scale budget tolD tolB l₁ = .error e → forecast v scale budget tolD tolB l₂ = .error e) ∧
+    (∀ f₁, forecast v scale budget tolD tolB l₁ = .ok f₁ →
+      ∃ f₂, forecast v scale budget tolD tolB l₂ = .ok f₂ ∧ f₂.chosen = f₁.chosen ∧ f₂.lam = f₁.lam ∧
+        f₂.x.Perm f₁.x) :=
+  forecast_perm v scale budget tolD tolB l₁ l₂ hp hone hkeys
+
+/-- the consumption given to the outside good by the closed form is strictly positive -/
+theorem outside_good_consumed (v : Variant) (scale : Option ℝ) (a : Alt ℝ) (hok : ParamOK a)
+    (hout : a.gamma = none) (lam : ℝ) (hl : lamOK scale a v lam) : 0 < inv v scale a lam :=
+  inv_outside_pos v scale a hok hout lam hl (fun _ => trivial)
+
+/-- the Boolean relation the driver evaluates on every real forecast (`kktB`), taken with zero
+tolerances, is exactly the list of hypotheses of `kkt_optimal_variant` -/
+theorem kkt_relation_exact (v : Variant) (scale : Option ℝ) (B lam : ℝ) (alts : List (Alt ℝ))
+    (xs : List ℝ) (h : kktB v scale B 0 0 alts xs lam = true) :
+    xs.sum = B ∧ ∀ p ∈ alts.zip xs, 0 ≤ p.2 ∧ (0 < p.2 → dU v scale p.1 p.2 = lam) ∧
+      (p.2 = 0 → isOutside p.1 = false ∧ dU v scale p.1 0 ≤ lam) :=
+  kktB_exact v scale B lam alts xs h
 
 /-! ### non-vacuity -/
 
